@@ -2,7 +2,13 @@
 use crate::runner::Property;
 
 pub mod c12;
+pub mod cpu;
 
 pub fn all() -> Vec<Box<dyn Property>> {
-    vec![Box::new(c12::C12)]
+    vec![
+        Box::new(cpu::CpuProp(cpu::Which::C01)),
+        Box::new(cpu::CpuProp(cpu::Which::C02)),
+        Box::new(cpu::CpuProp(cpu::Which::C03)),
+        Box::new(c12::C12),
+    ]
 }
